@@ -467,4 +467,18 @@ theorem reachV_restart_succeeds (p : Params) (g : Block) (hg : g.header.height =
     (reachV_indexInv p g hg hnz s h) hcfg
 
 
+/-- **any unfinished first start restarts clean**: a directory without version key whose state store passes the
+`NewStateStore` checks and whose hash file is no longer than one genesis append — whatever subset of the three stores
+an interrupted attempt (or an interrupted `ClearAll` of a later attempt) left behind — starts exactly like an empty one -/
+theorem reopen_unfinished_first_start (p : Params) (g : Block) (d : Durable) (hv : d.blocks.version = false)
+    (ho : ∃ r, openState d = .ok r) (hf : d.fileLen ≤ appendCount 0) : reopen p g d = initLedger p g := by
+  obtain ⟨r, hr⟩ := ho
+  unfold initLedger
+  unfold reopen
+  rw [hr, openState_empty]
+  simp only [hv, Durable.empty, BlockDB.empty, Bool.not_false, if_true]
+  rw [initGenesis_fileLen p d g (by omega)]
+  rfl
+
+
 end Poly.Model.Ledger
